@@ -22,7 +22,7 @@ nodes in which every node is a candidate of Kahn's algorithm at its position (al
 dependencies were emitted before it) and is the (power desc, ts asc, id asc)-least candidate there. -/
 theorem lexTopoSort_spec {g : Graph} (hd : IsDag g) {psh : Id → List Id → List Id}
     (hpsh : ∀ n l, (psh n l).Perm l) {key : Id → Option (Int × Int)} {kf : Id → Int × Int}
-    (hk : ∀ n, key n = some (kf n)) :
+    (hk : ∀ n ∈ g.nodes, key n = some (kf n)) :
     ∃ out, lexTopoSort psh g key = .ok out ∧ IsLexTopoOrder g (Kf kf) out :=
   ⟨_, lexTopoSort_eq_lexTopo hd.nodup hpsh hk, lexTopo_isLexTopoOrder hd kf⟩
 
@@ -37,7 +37,7 @@ bound suffices — and emits distinct nodes in a run of Kahn's algorithm that st
 candidate is left: the nodes on or behind a cycle or a dangling edge are silently dropped. -/
 theorem lexTopoSort_dangling {g : Graph} (hg : g.nodes.Nodup) {psh : Id → List Id → List Id}
     (hpsh : ∀ n l, (psh n l).Perm l) {key : Id → Option (Int × Int)} {kf : Id → Int × Int}
-    (hk : ∀ n, key n = some (kf n)) :
+    (hk : ∀ n ∈ g.nodes, key n = some (kf n)) :
     ∃ out, lexTopoSort psh g key = .ok out ∧ out.Nodup ∧ (∀ n ∈ out, n ∈ g.nodes) ∧
       KahnRun g (Kf kf) [] out ∧ candidates g out = [] :=
   ⟨_, lexTopoSort_eq_lexTopo hg hpsh hk, lexTopo_general hg kf⟩
